@@ -463,6 +463,19 @@ class Impl:
         if op == 'is_prefix':
             a, b = self.spec(s[1]), self.spec(s[2])
             return [bool(a.is_prefix(b, strict=(s[3] == '1')))]
+        if op == 'prefix_errors':
+            kw, ordered = self.cfg(s[1])
+            with self.ordered(ordered):
+                errs = optree.prefix_errors(u.obj(s[2]), u.obj(s[3]), **kw)
+            out = []
+            for mk in errs:
+                msg = str(mk('x'))
+                kind = ('types' if 'different types' in msg else 'keys' if 'different pytree keys' in msg
+                        else 'arity' if 'different numbers of pytree children' in msg
+                        else 'metadata' if 'different pytree metadata' in msg else 'unknown')
+                acc = mk.__closure__[mk.__code__.co_freevars.index('accessor')].cell_contents
+                out.append([A(kind), [u.enc_key(e) for e in acc.path]])
+            return out
         if op == 'flatten_up_to':
             sp = self.spec(s[1])
             return [u.enc_obj(x) for x in sp.flatten_up_to(u.obj(s[2]))]
